@@ -58,7 +58,7 @@ theorem step_once (b : Nat) {s : State} {sp : SpecSt} (hR : R s sp) (hW : WF s) 
         · have hb' : b ≠ e.id := fun h => hb h.symm
           simp [queueOf_enqueue_ne hb', hb]
       | suspend =>
-        simp only [leftover, isLive_enqueue, Option.map_some, proj, hr, delivers, Bool.and_true]
+        simp only [leftover, isLive_enqueue, Option.map_some, proj, hr, delivers]
         by_cases hb : e.id = b
         · subst hb
           simp [hlive, queueOf_enqueue_self _ hlive, rp, hR.nt]
@@ -113,7 +113,7 @@ theorem once_in_order_gen (b : Nat) (ops : List Op) :
       waitedOn b ops (run s ops) ++ (leftover b (final s ops)).map rp
         = (leftover b s).map rp ++ specReports b sp ops := by
   induction ops with
-  | nil => intro s sp _ _; simp [waitedOn, run, final, specReports, triggersOf]
+  | nil => intro s sp _ _; simp [waitedOn, final, specReports, triggersOf]
   | cons op ops ih =>
     intro s sp hR hW
     have h1 := step_once b hR hW op
@@ -164,7 +164,7 @@ theorem outcome_gen (ops : List Op) :
     ∀ (s : State) (sp : SpecSt), R s sp →
       triggerOuts ops (run s ops) = (triggersOf sp ops).map expectedOutcome := by
   induction ops with
-  | nil => intro s sp _; simp [triggerOuts, run, triggersOf]
+  | nil => intro s sp _; simp [triggerOuts, triggersOf]
   | cons op ops ih =>
     intro s sp hR
     have h2 := ih (step s op).1 (specStep sp op) (R_step hR op)
